@@ -2,6 +2,8 @@
 """Maintenance tool: regenerate /verif/MANIFEST.json from the table below and validate it."""
 import json, subprocess, sys
 base = json.load(open('/root/.vp/BASELINE.json'))
+import subprocess as _sp
+HOOK_COMMITS = [l.split()[0] for l in _sp.run(['git','-C','/repo','log','--format=%h %s'],capture_output=True,text=True).stdout.splitlines() if l.split(' ',1)[1].startswith('verif hook')][::-1]
 ALL = [f"C{i:02d}" for i in range(1, 31)]
 # id -> (technique, level text, level note, design_ref, engine)
 CHECKS = {
@@ -30,6 +32,27 @@ CHECKS = {
  "C22": ("proptest DAG/cyclic graph generator; order-validity oracle with independent cycle detection",
          "Exploration: 2M (quick) / 40M (thorough) package graphs (multi-edges, holes, disconnected parts, back edges, self loops): compilation_order must be a permutation with dependencies first for acyclic graphs and an error for cyclic ones (cyclicity decided by the harness's own DFS).",
          "Graph sizes up to 39 nodes.", "4/C22", "vp"),
+ "C03": ("proptest program generator x pass-pipeline generator; differential oracle on the FuelVM between the O0 pass list and the same list with registered IR passes inserted",
+         "Exploration: 140 (quick) / 6000 (thorough) generated scripts x 2 emission variants; for each, every one of the 18 registered transforms is inserted alone after lower-init-aggr and before the mandatory O0 tail, plus 4 random sequences of 2-6 transforms (~6k / ~260k pipelines); the real backend must accept the IR and the bytecode must give the same return data, logs and revert/panic outcome as the baseline on 8 argument tuples.",
+         "IR modules are the initial IR of generated scripts only (no contracts, no e2e corpus modules); pipelines whose IR fails verification are left to C04; three recorded findings are attributed by causal re-tests (dead arithmetic abort; memcpyprop_reverse; backend rejects cbr to one block with different arguments).", "12/C03", "vp"),
+ "C04": ("proptest program generator + .ir corpus x random pass sequences; invariant oracle = IR verifier (SSA dominance, force_verify_ir) after every pass, no panic",
+         "Exploration: 3000 (quick) / 200k (thorough) cases: initial IR of generated scripts (80%) or a consistent .ir file of sway-ir/tests (20%), then lower-init-aggr and 1-12 passes drawn with repetition from the 18 transforms + module-verifier, each run through PassManager::run with verify_ssa_dominance and force_verify_ir; any IrError (except an over-reported `modified` flag) or panic is a violation, identified by pass + message.",
+         "Hand-written corpus IR is admitted only if calls/branches are type-consistent and no never-written local is read (18 of 92 files excluded); a pass that reports `modified` although the text is unchanged is counted as benign.", "12/C04", "vp"),
+ "C05": ("proptest program generator x pipeline stage; round-trip oracle print -> parse -> print (alpha-normalised, then strict fixpoint) + behavioural differential through the backend",
+         "Exploration: 2500 (quick) / 100k (thorough) IR texts taken at a random stage of the O0 / O1 pipelines of generated scripts and from the .ir corpus: the text must parse and verify, re-print to the same text up to the numbering of anonymous values/metadata, re-print byte-identically from then on, and (30% of cases) the pipeline continued from the re-parsed text must give bytecode with the same outcome on 8 argument tuples.",
+         "'Identical text' is read up to the printer's arena-key based value names; one recorded finding (entry-block parameter immutability flags are not read back) is attributed by a textual causal test.", "12/C05", "vp"),
+ "C07": ("proptest program generator; differential oracle on the FuelVM between bytecode built with and without AbstractInstructionSet::optimize (cfg hook)",
+         "Exploration: 450 (quick) / 20k (thorough) generated scripts x 2 variants x O0/O1, each built normally and with the abstract-instruction optimizer switched off through a per-thread cfg hook; both bytecodes must give the same return data, logs and revert/panic outcome on 8 argument tuples; on a difference the seven sub-passes are switched off one by one to name the culprit.",
+         "Scripts only; the post-allocation peephole (AllocatedAbstractInstructionSet::optimize) is not switched.", "12/C07", "vp"),
+ "C08": ("proptest program generator (register-pressure knob); invariant oracle = independent liveness recomputation over the observed allocation (cfg hook)",
+         "Exploration: 420 (quick) / 20k (thorough) generated scripts (a third with >= 40 simultaneously live values and a call in between) x 2 variants x O0/O1; every function's allocation (~10k quick) is dumped as plain data through a cfg hook and checked: own CFG from labels/jumps, own backward liveness, no definition into a machine register holding another live virtual register (MOVE sources excepted), one machine register per virtual register, every spill-slot refill reached only by spills of the same register.",
+         "def/use sets come from the allocator's own tables; the behavioural half is C02/C07's; spill slots beyond 12-bit offsets are not tracked.", "12/C08", "vp"),
+ "C11": ("proptest contract-ABI generator (adversarial method names) + generated in-VM callers through forc-test; reference-model oracle on logs, return values and revert status",
+         "Exploration: 128 (quick) / 3000 (thorough) generated contracts (1-12 methods, names sharing prefixes / lengths / substrings, 0-4 arguments of generated ABI types, optional fallback) built by the real forc and called in-VM from generated #[test]s (~1.8k calls quick): the harness predicts the exact log sequence (method index, decoded arguments, returned value in encoding v1) and end state of every test; unknown names must run the fallback or revert.",
+         "Type trees depth <= 2; any revert code accepted for an unknown method; coins/gas at defaults.", "12/C11", "vp-contract"),
+ "C12": ("proptest storage-declaration generator + generated in-VM readers/writers through forc-test; reference-model oracle on reads and on the emitted slot keys",
+         "Exploration: 160 (quick) / 4000 (thorough) generated contracts with 1-10 storage fields (scalars, str[N], nested structs/enums/tuples up to 5+ slots, nested namespaces, explicit `in` keys, constant-expression initializers): every getter must read exactly the initializer, emitted slot keys must be sha256(0x00 || path) (+ consecutive slots) or the explicit key, pairwise distinct, and writing one field must leave all others unchanged.",
+         "Arrays, zero-sized and heap types excluded from storage (unsupported by the serializer); slot contents are judged through reads.", "12/C12", "vp-contract"),
  "C23": ("proptest edit histories against a UTF-16 reference client; model-equality oracle after every change",
          "Exploration: 150k (quick) / 6M (thorough) edit histories (1-29 full and incremental changes, multi-byte and astral characters, mixed line ends, invalid ranges) applied through Documents::update_text_document; server text must equal the reference client's after every step, invalid ranges must be rejected unchanged, nothing may panic.",
          "Lone CR line ends are not generated; sloppy columns (past end of line, inside a surrogate pair) are crash-freedom only.", "4/C23", "vp-lsp"),
@@ -37,6 +60,9 @@ CHECKS = {
 NA = {
  "C01": "a reference interpreter for the generated fragment exists in harness/vp (swaygen::Interp) but its disagreements with the VM have not been triaged to the standard needed to rule out false alarms, so the check is not claimed; C02 and C17 run the same generator",
 }
+# checks that are finished (silent on the unchanged tree over several seeds, sensitivity-tested); others stay unclaimed
+READY = set(open('/verif/tools/ready.txt').read().split())
+CHECKS = {k: v for k, v in CHECKS.items() if k in READY}
 checks = []
 for pid in ALL:
     if pid in CHECKS:
@@ -60,13 +86,21 @@ m = {
    "guard": "--cfg fuellabs_sway_verif",
    "enable": "harness/.cargo/config.toml passes rustflags [\"--cfg\", \"fuellabs_sway_verif\"] to every harness build; /repo's own builds never see it",
    "baseline_off_cmd": base["cmd"],
-   "source_commits": ["7fe56b1"],
+   "source_commits": HOOK_COMMITS,
    "add_only": True,
  },
  "engines": [
    {"name": "vp-text", "path": "harness/vp-text", "serves_properties": ["C16", "C18", "C19"], "kind_free_text": "proptest-driven binary over sway-parse/swayfmt"},
    {"name": "vp", "path": "harness/vp", "serves_properties": [k for k,v in CHECKS.items() if v[4]=="vp"], "kind_free_text": "proptest-driven binary over sway-core/sway-ir/forc-pkg/forc-test/forc-util + FuelVM"},
    {"name": "vp-lsp", "path": "harness/vp-lsp", "serves_properties": [k for k,v in CHECKS.items() if v[4]=="vp-lsp"], "kind_free_text": "proptest-driven binary over sway-lsp"},
+ ] + [
+   {"name": n, "path": "harness/"+n, "serves_properties": [k for k,v in CHECKS.items() if v[4]==n], "kind_free_text": t}
+   for n,t in [("vp-contract","proptest-driven binary: generated contracts built by forc and executed in-VM through forc-test"),
+               ("vp-abi","proptest-driven binary: ABI type/value generator, reference codec, in-process compiler + FuelVM"),
+               ("vp-ftest","proptest-driven binary: std collection / numeric histories against Rust reference models, forc-test"),
+               ("vp-proc","process-actor binary: step-scheduled / fault-injected child processes over forc-util and forc-pkg"),
+               ("vp-sem","proptest-driven binary: match-matrix and constant-expression generators over sway-core + FuelVM")]
+   if any(v[4]==n for v in CHECKS.values())
  ],
  "checks": checks,
  "not_applicable": na,
